@@ -415,6 +415,9 @@ def check_apply_op(sc, obs, opi, add):
     cbs = collections.defaultdict(list)
     for c in o.get('callbacks', []):
         cbs[c[1]].append(c)
+    for i, rdy in o.get('ready_after_join') or []:
+        if not rdy:
+            add('C09', 'ready_once_joined', {'task': i})
     for (i, kind, val, ready) in o['apply']:
         slow = to is not None and float(dur.get(str(i), 0)) > to
         if f.get('init') == 'all' and op.get('init') and any(c[0] == opi and c[1] == 'init' for c in obs.get('calls', [])):
